@@ -6,7 +6,7 @@ import numpy as np
 
 from pbt import gen
 from pbt.engine import Outcome, Violation
-from pbt.harness import Session, algo_label, ancestors, iter_tree
+from pbt.harness import Unattributable, Session, algo_label, ancestors, iter_tree
 
 PROP = "C04"
 RULE = (
@@ -171,7 +171,8 @@ def check_case(case):
                 calls = s.learner_calls[ncalls0:]
                 expected = []
                 if name == "Zooming":
-                    arms = [a for a in s.algo.active_points if a.get_point() is pt]
+                    arms = [a for a in s.algo.active_points if a.get_point() is pt] or \
+                        [a for a in s.algo.active_points if list(a.get_point()) == list(pt)]
                     # the arm may have been re-assigned, but it stays the same object
                     if len(arms) != 1:
                         raise Violation("arm-identity", "returned point belongs to %d active arms" % len(arms), i)
@@ -315,6 +316,8 @@ def check_case(case):
             if stopped_internal:
                 classes.append("hct-stopped-at-internal-cell")
             return Outcome(nontrivial=T >= 20 and late, classes=classes, rounds=T)
+    except Unattributable:
+        return Outcome(aborted="point-matches-several-cells", classes=classes)
     except Violation as v:
         return Outcome(violation=v.as_dict(), classes=classes, rounds=v.round or 0)
 
